@@ -1210,5 +1210,285 @@ theorem protocol_gen_tasks (Y : YieldFn) (F : BodyFn) (s : Sess) (g : Nat) (G : 
   rw [htasks]
   exact List.mem_append.2 (Or.inr hk)
 
+/-! ## Converse graph facts: where the edges of the graph come from -/
+
+theorem foldl_addEdge_conv {α} (mk : α → Nat × Nat) : ∀ (xs : List α) (g : G) (e : Nat × Nat),
+    e ∈ (xs.foldl (fun g y => g.addEdge (mk y).1 (mk y).2) g).edges → e ∈ g.edges ∨ ∃ x ∈ xs, e = mk x
+  | [], g, e, h => Or.inl h
+  | y :: ys, g, e, h => by
+    simp only [List.foldl_cons] at h
+    rcases foldl_addEdge_conv mk ys _ e h with h1 | ⟨x, hx, rfl⟩
+    · rcases mem_addEdge_edges.1 h1 with h2 | h2
+      · exact Or.inl h2
+      · exact Or.inr ⟨y, by simp, h2⟩
+    · exact Or.inr ⟨x, by simp [hx], rfl⟩
+
+theorem baseStep_conv (g : G) (t : TaskSpec) (e : Nat × Nat) (h : e ∈ (baseStep g t).edges) :
+    e ∈ g.edges ∨ (∃ d ∈ t.deps, e = (nv d, tv t.id)) ∨ (∃ p ∈ t.prods, e = (tv t.id, nv p)) := by
+  unfold baseStep at h
+  rcases foldl_addEdge_conv (fun p => (tv t.id, nv p)) t.prods _ e h with h1 | h1
+  · rcases foldl_addEdge_conv (fun d => (nv d, tv t.id)) t.deps _ e h1 with h2 | h2
+    · left; simpa using h2
+    · right; left; exact h2
+  · right; right; exact h1
+
+theorem baseGraph_conv (P : Project) (e : Nat × Nat) (h : e ∈ (baseGraph P).edges) :
+    ∃ t ∈ P.tasks, (∃ d ∈ t.deps, e = (nv d, tv t.id)) ∨ (∃ p ∈ t.prods, e = (tv t.id, nv p)) := by
+  rw [baseGraph_eq] at h
+  have key : ∀ (ts : List TaskSpec) (g : G), e ∈ (ts.foldl baseStep g).edges →
+      e ∈ g.edges ∨ ∃ t ∈ ts, (∃ d ∈ t.deps, e = (nv d, tv t.id)) ∨ (∃ p ∈ t.prods, e = (tv t.id, nv p)) := by
+    intro ts
+    induction ts with
+    | nil => intro g h; exact Or.inl h
+    | cons x xs ih =>
+      intro g h
+      simp only [List.foldl_cons] at h
+      rcases ih _ h with h1 | ⟨t, ht, h2⟩
+      · rcases baseStep_conv g x e h1 with h3 | h3
+        · exact Or.inl h3
+        · exact Or.inr ⟨x, by simp, h3⟩
+      · exact Or.inr ⟨t, by simp [ht], h2⟩
+  rcases key P.tasks G.empty h with h1 | h1
+  · cases h1
+  · exact h1
+
+theorem isTaskV_tv (a : Nat) : isTaskV (tv a) = true := by unfold isTaskV tv; simp
+theorem isTaskV_nv (a : Nat) : isTaskV (nv a) = false := by unfold isTaskV nv; simp
+theorem tv_ne_nv (a b : Nat) : tv a ≠ nv b := by unfold tv nv; omega
+
+/-- Every edge joins a task vertex and a node vertex. -/
+def Bip (g : G) : Prop := ∀ e ∈ g.edges, isTaskV e.1 ≠ isTaskV e.2
+
+/-- `_modify_dag` only adds edges from a node (a product of the `after` target) to a task declaring `after`. -/
+theorem modifyDag_conv (P : Project) (g : G) (hb : Bip g) (e : Nat × Nat) (h : e ∈ (modifyDag P g).edges) :
+    e ∈ g.edges ∨ ∃ u ∈ P.tasks, u.after ≠ [] ∧ e.2 = tv u.id ∧ isTaskV e.1 = false := by
+  unfold modifyDag at h
+  have succ_step : ∀ (t : TaskSpec) (o : Nat) (g : G), Bip g →
+      Bip ((g.succs (tv o)).foldl (fun g s => g.addEdge s (tv t.id)) g) ∧
+      ∀ e ∈ ((g.succs (tv o)).foldl (fun g s => g.addEdge s (tv t.id)) g).edges,
+        e ∈ g.edges ∨ (e.2 = tv t.id ∧ isTaskV e.1 = false) := by
+    intro t o g hb
+    have hconv : ∀ e ∈ ((g.succs (tv o)).foldl (fun g s => g.addEdge s (tv t.id)) g).edges,
+        e ∈ g.edges ∨ (e.2 = tv t.id ∧ isTaskV e.1 = false) := by
+      intro e he
+      rcases foldl_addEdge_conv (fun s => (s, tv t.id)) _ g e he with h2 | ⟨s, hs, rfl⟩
+      · exact Or.inl h2
+      · have hedge := mem_succs.1 hs
+        have := hb _ hedge
+        simp only [isTaskV_tv] at this
+        refine Or.inr ⟨rfl, ?_⟩
+        cases hx : isTaskV s with
+        | false => rfl
+        | true => rw [hx] at this; exact absurd rfl this
+    refine ⟨fun e he => ?_, hconv⟩
+    rcases hconv e he with h1 | ⟨h1, h2⟩
+    · exact hb e h1
+    · rw [h1, h2, isTaskV_tv]; simp
+  have inner : ∀ (t : TaskSpec) (os : List Nat) (g : G), Bip g →
+      Bip (os.foldl (fun g o => if o == t.id then g else (g.succs (tv o)).foldl (fun g s => g.addEdge s (tv t.id)) g) g) ∧
+      ∀ e ∈ (os.foldl (fun g o => if o == t.id then g else (g.succs (tv o)).foldl (fun g s => g.addEdge s (tv t.id)) g) g).edges,
+        e ∈ g.edges ∨ (os ≠ [] ∧ e.2 = tv t.id ∧ isTaskV e.1 = false) := by
+    intro t os
+    induction os with
+    | nil => intro g hb; exact ⟨hb, fun e h => Or.inl h⟩
+    | cons o os ih =>
+      intro g hb
+      simp only [List.foldl_cons]
+      by_cases ho : (o == t.id) = true
+      · simp only [ho, if_true]
+        obtain ⟨b1, c1⟩ := ih g hb
+        exact ⟨b1, fun e he => (c1 e he).imp id (fun h => ⟨by simp, h.2⟩)⟩
+      · simp only [ho, Bool.false_eq_true, if_false]
+        obtain ⟨b0, c0⟩ := succ_step t o g hb
+        obtain ⟨b1, c1⟩ := ih _ b0
+        refine ⟨b1, fun e he => ?_⟩
+        rcases c1 e he with h1 | h1
+        · rcases c0 e h1 with h2 | h2
+          · exact Or.inl h2
+          · exact Or.inr ⟨by simp, h2⟩
+        · exact Or.inr ⟨by simp, h1.2⟩
+  have outer : ∀ (ts : List TaskSpec) (g : G), Bip g →
+      ∀ e ∈ (ts.foldl (fun g t => t.after.foldl (fun g o => if o == t.id then g else
+          (g.succs (tv o)).foldl (fun g s => g.addEdge s (tv t.id)) g) g) g).edges,
+      e ∈ g.edges ∨ ∃ u ∈ ts, u.after ≠ [] ∧ e.2 = tv u.id ∧ isTaskV e.1 = false := by
+    intro ts
+    induction ts with
+    | nil => intro g _ e h; exact Or.inl h
+    | cons x xs ih =>
+      intro g hb e h
+      simp only [List.foldl_cons] at h
+      obtain ⟨b0, c0⟩ := inner x x.after g hb
+      rcases ih _ b0 e h with h1 | ⟨u, hu, h2⟩
+      · rcases c0 e h1 with h3 | h3
+        · exact Or.inl h3
+        · exact Or.inr ⟨x, by simp, h3⟩
+      · exact Or.inr ⟨u, by simp [hu], h2⟩
+  exact outer P.tasks g hb e h
+
+theorem baseGraph_bip (P : Project) : Bip (baseGraph P) := by
+  intro e he
+  obtain ⟨t, _, hor⟩ := baseGraph_conv P e he
+  rcases hor with ⟨d, _, rfl⟩ | ⟨p, _, rfl⟩
+  · simp [isTaskV_tv, isTaskV_nv]
+  · simp [isTaskV_tv, isTaskV_nv]
+
+/-- Predecessors and successors of a task vertex in the graph of `create_dag_from_session`: the declared dependencies
+(and, for a task with `after`, whatever `_modify_dag` added) — resp. exactly the declared products — of tasks with that id. -/
+theorem createDag_neighbours_conv {ts : List PTask} {g : G} {m : List Nat} (h : createDag (toProject ts) {} = .ok (g, m)) (t : Nat) :
+    (∀ x, x ∈ g.preds (tv t) → (∃ u ∈ ts, u.id = t ∧ ∃ d ∈ u.allDeps, x = nv d) ∨ (∃ u ∈ ts, u.id = t ∧ u.after ≠ [])) ∧
+    (∀ x, x ∈ g.succs (tv t) → ∃ u ∈ ts, u.id = t ∧ ∃ p ∈ u.allProds, x = nv p) := by
+  obtain ⟨rfl, _⟩ := createDag_ok h
+  have base : ∀ e, e ∈ (baseGraph (toProject ts)).edges →
+      ∃ u ∈ ts, (∃ d ∈ u.allDeps, e = (nv d, tv u.id)) ∨ (∃ p ∈ u.allProds, e = (tv u.id, nv p)) := by
+    intro e he
+    obtain ⟨sp, hsp, hor⟩ := baseGraph_conv _ e he
+    obtain ⟨u, hu, rfl⟩ := List.mem_map.1 hsp
+    exact ⟨u, hu, hor⟩
+  constructor
+  · intro x hx
+    have he := mem_preds.1 hx
+    rcases modifyDag_conv _ _ (baseGraph_bip _) _ he with h1 | ⟨sp, hsp, ha, h2, _⟩
+    · obtain ⟨u, hu, hor⟩ := base _ h1
+      rcases hor with ⟨d, hd, heq⟩ | ⟨p, hp, heq⟩
+      · simp only [Prod.mk.injEq] at heq
+        exact Or.inl ⟨u, hu, (tv_inj' heq.2).symm, d, hd, heq.1⟩
+      · simp only [Prod.mk.injEq] at heq
+        exact absurd heq.2 (tv_ne_nv _ _)
+    · obtain ⟨u, hu, rfl⟩ := List.mem_map.1 hsp
+      exact Or.inr ⟨u, hu, (tv_inj' h2).symm, ha⟩
+  · intro x hx
+    have he := mem_succs.1 hx
+    rcases modifyDag_conv _ _ (baseGraph_bip _) _ he with h1 | ⟨sp, hsp, _, _, h3⟩
+    · obtain ⟨u, hu, hor⟩ := base _ h1
+      rcases hor with ⟨d, hd, heq⟩ | ⟨p, hp, heq⟩
+      · simp only [Prod.mk.injEq] at heq
+        exact absurd heq.1 (tv_ne_nv _ _)
+      · simp only [Prod.mk.injEq] at heq
+        exact ⟨u, hu, (tv_inj' heq.1).symm, p, hp, heq.2⟩
+    · simp only [isTaskV_tv] at h3
+      cases h3
+
+theorem scanP_not_missing (P : Project) (g : G) (w : World) (pn : List Nat) (t : Nat) :
+    ∀ (vs : List Nat) (needs : Bool),
+      (∀ v ∈ vs, ((g.preds (tv t)).contains v || v == tv t) = true → (stateOf P w v).isSome = true) →
+      scanP P g w pn t needs vs ≠ Scan.missing
+  | [], needs, _ => by unfold scanP; split <;> simp
+  | v :: vs, needs, h => by
+    have hrec := fun n => scanP_not_missing P g w pn t vs n (fun u hu => h u (List.mem_cons_of_mem _ hu))
+    unfold scanP
+    simp only []
+    split
+    · simp
+    · split
+      · exact hrec _
+      · split
+        · rename_i hm
+          simp only [Bool.and_eq_true] at hm
+          have := h v (by simp) hm.1
+          rw [Option.isNone_iff_eq_none] at hm
+          rw [hm.2] at this; cases this
+        · split
+          · exact hrec _
+          · exact hrec _
+
+theorem scan_cases (sc : Scan) (h1 : sc ≠ .unchanged) (h2 : sc ≠ .missing) : sc = .changed := by
+  cases sc <;> simp_all
+
+theorem mem_setTask {ts : List PTask} {tk' u : PTask} (h : u ∈ setTask ts tk') : u = tk' ∨ (u ∈ ts ∧ u.id ≠ tk'.id) := by
+  unfold setTask at h
+  obtain ⟨x, hx, rfl⟩ := List.mem_map.1 h
+  by_cases he : (x.id == tk'.id) = true
+  · left; simp [he]
+  · right; simp only [he, Bool.false_eq_true, if_false]; exact ⟨hx, by simpa using he⟩
+
+theorem project_find_of_findTask {ts : List PTask} {t : Nat} {tk : PTask} (h : findTask ts t = some tk) :
+    Project.find? (toProject ts) t = some (toSpec tk) := by
+  unfold Project.find? toProject findTask at *
+  simp only []
+  induction ts with
+  | nil => simp at h
+  | cons x xs ih =>
+    simp only [List.map_cons, List.find?_cons] at h ⊢
+    have : (toSpec x).id = x.id := rfl
+    rw [this]
+    cases hx : (x.id == t)
+    · rw [hx] at h; exact ih h
+    · rw [hx] at h; simp only [Option.some.injEq] at h; rw [h]
+
+theorem stateOf_tv {ts : List PTask} {t : Nat} {tk : PTask} (w : World) (h : findTask ts t = some tk) :
+    stateOf (toProject ts) w (tv t) = lookup w.fs tk.src := by
+  unfold stateOf
+  have h2 : tv t / 2 = t := by unfold tv; omega
+  simp only [isTaskV_tv, if_true, h2, project_find_of_findTask h]
+  rfl
+
+/-- If the change scan answers "changed", the task function is called (whatever it then does). -/
+theorem runPhases_changed (Y : YieldFn) (F : BodyFn) (s : Sess) (t : Nat) (tk : PTask)
+    (hf : findTask s.tasks t = some tk) (hng : tk.gen = false) (hfm : t ∉ s.failMarks)
+    (hscan : scanP (toProject (setupProvisional s t).tasks) (setupProvisional s t).g (setupProvisional s t).w
+        (provNodes (setupProvisional s t).tasks) t false (neighbours (setupProvisional s t).g t) = Scan.changed) :
+    (runPhases Y F s t).1.log = s.log ++ [t] := by
+  have hsp := setupProvisional_spec s t tk hf
+  have hgen : (resolvedDeps s.w.fs tk).gen = false := by unfold resolvedDeps; split <;> exact hng
+  have hid : (resolvedDeps s.w.fs tk).id = t := findTask_id hsp.2
+  unfold runPhases
+  rw [setupChain_eval]
+  have hfm' : (setupProvisional s t).failMarks.contains t = false := by
+    rw [hsp.1.2.2.2.1]; simpa using hfm
+  simp only [hfm', Bool.false_eq_true, if_false]
+  have hse : setupExecute (setupProvisional s t) t = (setupProvisional s t, Raised.none) := by
+    unfold setupExecute
+    rw [hsp.2]
+    simp only [hgen, Bool.false_eq_true, if_false, hscan]
+  rw [hse]
+  simp only []
+  rw [execChain_eval, hsp.2]
+  simp only [hgen, Bool.false_eq_true, if_false]
+  cases hb : (runBody F (resolvedDeps s.w.fs tk) (setupProvisional s t).w.fs).2 with
+  | true => simp [invoke, hid, hsp.1.2.1]
+  | false =>
+    simp only []
+    have htd := teardown_sameObs ({ invoke (setupProvisional s t) (resolvedDeps s.w.fs tk) with
+      w := { (setupProvisional s t).w with fs := (runBody F (resolvedDeps s.w.fs tk) (setupProvisional s t).w.fs).1 } }) t
+    rw [htd.2.1]
+    simp [invoke, hid, hsp.1.2.1]
+
+theorem setupProvisional_tasks (s : Sess) (t : Nat) (tk : PTask) (hf : findTask s.tasks t = some tk)
+    (hu : unresolved tk.pdeps = true) :
+    (setupProvisional s t).tasks = setTask s.tasks (resolvedDeps s.w.fs tk) := by
+  unfold setupProvisional resolvedDeps
+  rw [hf]
+  simp only [hu, if_true, addTwp_contains]
+  rw [(recreate_frame _ t).1]
+
+/-- After the resolution, with all pattern dependencies fresh, every declared dependency of the task record exists if the
+non-pattern dependencies do (matched files exist by definition of matching). -/
+theorem resolvedDeps_allDeps_exist (fs : FS) (tk : PTask) (hun : ∀ sl ∈ tk.pdeps, sl.res = none)
+    (hdeps : ∀ d ∈ tk.cnt.toList ++ tk.deps, (lookup fs d).isSome = true) :
+    ∀ d ∈ (resolvedDeps fs tk).allDeps, (lookup fs d).isSome = true := by
+  intro d hd
+  unfold resolvedDeps at hd
+  by_cases hu : unresolved tk.pdeps = true
+  · simp only [hu, if_true, PTask.allDeps] at hd
+    rcases List.mem_append.1 hd with h1 | h1
+    · exact hdeps d h1
+    · obtain ⟨sl', hsl', hdn⟩ := List.mem_flatMap.1 h1
+      obtain ⟨sl, hsl, rfl⟩ := List.mem_map.1 hsl'
+      have := hun sl hsl
+      unfold Slot.resolve Slot.nodes at hdn
+      rw [this] at hdn
+      simp only [] at hdn
+      exact (mem_glob.1 hdn).2.2
+  · simp only [hu, Bool.false_eq_true, if_false, PTask.allDeps] at hd
+    rcases List.mem_append.1 hd with h1 | h1
+    · exact hdeps d h1
+    · obtain ⟨sl, hsl, hdn⟩ := List.mem_flatMap.1 h1
+      have hnone := hun sl hsl
+      exfalso
+      unfold unresolved at hu
+      simp only [List.any_eq_true, not_exists, not_and, Bool.not_eq_true] at hu
+      have := hu sl hsl
+      rw [hnone] at this; simp at this
+
 end Prov
 end Pytask
